@@ -255,7 +255,9 @@ def gen_program(ctx, rng, idx):
                     continue
                 incs.append((rel, envs[names[j]]))
         gen = G.Gen(rng, size=0.8)
-        m = gen.model(includes=incs)
+        # several scopes per file (ParseFrugal sorts them by name) and services (duplicate-name validation)
+        extra = ["scope"] * rng.choice([0, 2, 3]) + ["service"] * rng.choice([0, 1, 2])
+        m = gen.model(includes=incs, extra_kinds=extra)
         models[names[i]] = m
         envs[names[i]] = m
     files = {n: G.Renderer(rng).render(models[n]) for n in names}
@@ -271,7 +273,10 @@ def oracle_program(prog, resp):
     def walk(name, node, seen):
         m = prog["models"][name]
         want = G.canon(m, sort_scopes=True)
-        d = first_diff(want, G.from_json(node["ast"]))
+        got_ast = G.from_json(node["ast"])
+        # the order of scopes is not part of the property (ParseFrugal sorts them for determinism)
+        got_ast[9] = sorted(got_ast[9], key=lambda sc: sc[1])
+        d = first_diff(want, got_ast)
         if d:
             return "file %s: parse tree differs from the declaration: %s" % (name.decode(), d)
         stem = os.path.basename(name.decode()).split(".")[0]
